@@ -297,7 +297,9 @@ class SimulationMaximumStep(SimulationWithJumpTimes):
                     axis=-1,
                 )
                 positions = np.flatnonzero(aug_dts > threshold)
-            aug_jump_times = np.cumsum(aug_dts)
+            # the running sum of the steps may end an ulp beyond the last original time (the maturity): no time lies
+            # beyond it, otherwise the maturity appended by the caller would come before the last point
+            aug_jump_times = np.minimum(np.cumsum(aug_dts), jump_times[-1])
 
             return aug_jump_times, aug_jump_values
 
